@@ -22,14 +22,16 @@ RULE = ("TLC enumerates every canonical training multiset of the TreeGrow scope 
         "(small-integer, pairwise-distinct, continuous, dyadic, constant/binary mixtures), 2..5 classes with "
         "arbitrary labels / dyadic targets, 3 criteria, max_depth None|1..8, min_samples_leaf 1..5, "
         "min_samples_split 0..8, through DenseMatrix<f64> (65%), DenseMatrix<f32>, ndarray (column- and row-major) and nalgebra, "
-        "each fitted twice and (half of them) on features*2^j, j in -200..200. A fit is non-trivial "
+        "inherent and api-trait entry points, structured row orders, sizes around powers of two up to 1025 (2049 thorough), "
+        "each fitted twice and (half of them) on features*2^j, j in -200..200 and 1023 / 127 (near overflow). A fit is non-trivial "
         "when the tree has >= 3 internal nodes, or two rows share a feature value but not the label/target, "
         "or a leaf that could still be split by some threshold was kept by a depth / leaf-size / split-size "
         "limit; distinct = distinct (parameters, X, y)")
 
 MUST_HIT = ("TreeFit", "Cls", "Reg", "DepthLimited", "LeafLimit", "OptReg", "CompleteReg", "SideCond", "OptGini",
             "OptEntropy", "OptError", "CompleteCls", "Reproduce", "Refit", "Scaled", "ScaledFar", "ArgSort", "Replayed",
-            "Adjacent", "F32", "NdarrayF", "NdarrayC", "Nalgebra")
+            "Adjacent", "F32", "NdarrayF", "NdarrayC", "Nalgebra", "NearMax", "Ordered", "Ladder", "TraitEntry",
+            "SortPattern", "SortLadder")
 
 
 def leaf_rows(e):
@@ -89,7 +91,7 @@ def key_of(e, clause):
     if e["ev"] == "TreeFit" and e.get("status") == "ok" and e.get("xkind") == "rank" and threshold_on_data_value(e):
         return "%s tree: split threshold equals the upper of two neighbouring doubles" % e["kind"]
     if e["ev"] == "ArgSort":
-        return "argsort n=%d: %s" % (len(e["v"]), clause)
+        return "argsort %s n=%d: %s" % (e.get("family", ""), len(e["v"]), clause)
     if e["ev"] == "Refit" or (e["ev"] == "Scaled" and clause == "ScaleInvariant"):
         far = abs(e.get("shift") or 0) >= 50
         return "%s %s(%s, %s): %s" % (e["ev"], "by 2^+-50 or more " if far else "", e.get("backend"), e.get("family"), clause)
@@ -214,7 +216,8 @@ def run(ctx):
             "(distinct gains there may differ by less than double rounding error)",
             "f32 trees: regression optimality not decided, gini optimality only at nodes of <= 12 rows; "
             "thresholds are only required to induce an optimal partition, not to be midpoints",
-            "rescaling beyond 2^+-200 (f64) / 2^+-60 (f32), i.e. near under-/overflow of the element type",
+            "near underflow (subnormal features); near overflow (2^1023 / 2^127) only the partition, not the exact "
+            "threshold, is required to be scale invariant",
         ],
     }
     ctx.assumptions = [
